@@ -451,6 +451,8 @@ def check_holders(ctx, unit, classes):
                 # any other member of the source (its engaged flag / error code) is a read of the source as well
                 reads += [n for n in f.events() if n.kind == "MemberExpr" and n.get("mk") == "Field" and n.children
                           and std_unwrap(n.children[0]).kind == "DeclRefExpr" and std_unwrap(n.children[0]).d.get("d") == p0["d"]]
+                # ... and so is any other mention of the source: asking it whether it is engaged, handing it on to a helper
+                reads += [n for n in f.events() if n.kind == "DeclRefExpr" and n.d.get("d") == p0["d"]]
                 for d_ in dts:
                     for r_ in reads:
                         if f.reaches(d_.id, r_.id):
@@ -518,25 +520,27 @@ def check_copy_selects_copy(ctx, unit, rule="W.copy-selects-copy"):
     constructible T, and turns the copy into `engaged(bool(source))`."""
     ctx.rule(rule, "copy-constructing optional/variant/expected from a non-const lvalue of the same type resolves to the copy "
              "constructor for every witness element type (bool, a class with a catch-all constructor, a plain class)", 4)
-    fs = [f for f in unit.functions if f.name == "probe_copy_select"]
-    if not fs:
-        raise AnalysisBroken("anchor vanished: wit::probe_copy_select in the holders unit")
-    f = fs[0]
+    fs = [f for f in unit.functions if f.name in ("probe_copy_select", "probe_copy_select_cv")]
+    if len(fs) < 2:
+        raise AnalysisBroken("anchor vanished: wit::probe_copy_select / probe_copy_select_cv in the holders unit")
     n_ = 0
-    for n in sorted([x for x in f.events() if x.kind == "CXXConstructExpr" and x.callee and (x.callee.get("cls") or "") in CONFIG],
-                    key=lambda x: x.loc):
-        a = n.args[0] if n.args else None
-        if a is None:
-            continue
-        n_ += 1
-        cal = n.callee
-        ok = bool(cal.get("copy"))
-        ctx.inst(rule, "%s from a non-const lvalue" % cal.get("qn", "?").rsplit("::", 1)[0], ok, n.loc,
-                 "resolves to %s(%s)%s" % (cal.get("n"), ", ".join(cal.get("ptypes", [])),
-                                           "" if ok else ": a constructor template, not the copy constructor — the copy's state becomes "
-                                           "engaged(T(source)) instead of the source's state"), f)
-    if n_ < 4:
-        raise AnalysisBroken("anchor vanished: copy constructions in wit::probe_copy_select (found %d)" % n_)
+    for f in sorted(fs, key=lambda g: g.name):
+        k_ = 0
+        for n in sorted([x for x in f.events() if x.kind == "CXXConstructExpr" and x.callee and (x.callee.get("cls") or "") in CONFIG],
+                        key=lambda x: x.loc):
+            a = n.args[0] if n.args else None
+            if a is None:
+                continue
+            n_ += 1
+            k_ += 1
+            cal = n.callee
+            ok = bool(cal.get("copy")) if f.name == "probe_copy_select" else bool(cal.get("copy") or cal.get("move"))
+            ctx.inst(rule, "%s from %s #%d" % (cal.get("qn", "?").rsplit("::", 1)[0], "a const lvalue / rvalue / const rvalue of its own type" if f.name != "probe_copy_select" else "a non-const lvalue", k_), ok, n.loc,
+                     "resolves to %s(%s)%s" % (cal.get("n"), ", ".join(cal.get("ptypes", [])),
+                                               "" if ok else ": a constructor template, not the copy/move constructor — the new object's state "
+                                               "becomes engaged(T(source)) instead of the source's state"), f)
+    if n_ < 13:
+        raise AnalysisBroken("anchor vanished: copy constructions in wit::probe_copy_select* (found %d)" % n_)
 
 
 def check_returns(ctx, unit, fns, rule="R.returns"):
